@@ -122,6 +122,14 @@ func minimal(ds []vlib.IPath) map[string]bool {
 
 func normalise(c vlib.Conf) vlib.Conf { return vlib.NormPresence(c) }
 
+func written(u vlib.Conf) []vlib.IPath {
+	var w []vlib.IPath
+	for k := range u {
+		w = append(w, vlib.MustCanon(k))
+	}
+	return w
+}
+
 func applyXML(base vlib.Conf, ch *vlib.XMLChange) vlib.Conf {
 	c := base.Clone()
 	for _, r := range ch.Replaces {
@@ -133,6 +141,7 @@ func applyXML(base vlib.Conf, ch *vlib.XMLChange) vlib.Conf {
 	for k, v := range ch.Updates {
 		c.ApplyUpdate(vlib.MustCanon(k), v)
 	}
+	vlib.EnforceChoices(c, written(ch.Updates))
 	return c
 }
 
@@ -144,6 +153,7 @@ func applyJSON(base vlib.Conf, dels []vlib.IPath, leaves vlib.Conf) vlib.Conf {
 	for k, v := range leaves {
 		c.ApplyUpdate(vlib.MustCanon(k), v)
 	}
+	vlib.EnforceChoices(c, written(leaves))
 	return c
 }
 
@@ -158,6 +168,13 @@ func checkRenderings(base vlib.Conf, rec *vlib.SetRecord, r *vlib.Renderings, la
 	// (1) semantic agreement on the change
 	rProto := base.Clone()
 	vlib.ApplyRecord(rProto, rec)
+	{
+		var w []vlib.IPath
+		for _, u := range rec.Updates {
+			w = append(w, u.Path)
+		}
+		vlib.EnforceChoices(rProto, w)
+	}
 	want := normalise(rProto)
 	for _, ietf := range []bool{false, true} {
 		raw, name := r.JSONNew, "json"
@@ -204,10 +221,6 @@ func checkRenderings(base vlib.Conf, rec *vlib.SetRecord, r *vlib.Renderings, la
 			sig := "C10:xml-disagrees-with-proto"
 			if len(ch.Replaces) > 0 {
 				sig += ":replace-operation"
-			} else if onlyCaseMembersKept(got, want) {
-				// every difference is a node inside a case of a choice nested in a case of another choice that the proto
-				// rendering deletes and the XML rendering keeps
-				sig += ":nested-case-member-not-deleted"
 			}
 			fl := vlib.Failf(sig, "applying the XML rendering (%s) and the proto rendering to the same device configuration gives different results (xml vs proto):\n  %s\nxml: %s\nproto updates=%s deletes=%s\ndevice before: %s", o, strings.Join(d, "\n  "), raw, vlib.JSON(rec.Updates), vlib.JSON(rec.Deletes), vlib.JSON(base))
 			// keep searching behind the known leaf-list replace finding: count it, skip this comparison only
@@ -271,28 +284,6 @@ func setKeys(m map[string]bool) []string {
 	return r
 }
 
-// onlyCaseMembersKept: xml (got) and proto (want) results differ only in paths that lie inside nested choice cases
-// (a case of a choice inside a case of another choice) and that the XML result still holds while the proto result
-// does not.
-func onlyCaseMembersKept(got, want vlib.Conf) bool {
-	n := 0
-	for k, v := range want {
-		if g, ok := got[k]; !ok || g != v {
-			return false
-		}
-	}
-	for k := range got {
-		if _, ok := want[k]; ok {
-			continue
-		}
-		if len(vlib.ChoiceRefs(vlib.MustCanon(k))) < 2 {
-			return false
-		}
-		n++
-	}
-	return n > 0
-}
-
 func anClass(a string) string {
 	switch {
 	case strings.Contains(a, "xml-namespace"):
@@ -339,6 +330,9 @@ func Exec(c *vlib.HistCase) (nontrivial bool, labels []string, fail *vlib.Failur
 		os.Exit(2)
 	}
 	defer h.DS.Stop()
+	// the device is a YANG server: an edit that writes a node of one case removes the other cases' nodes, so the
+	// device never holds two cases of a choice (an unmanaged node of a case goes away when an intent picks another)
+	h.Dev.EnforceChoices = true
 	lab := map[string]bool{}
 	var f *vlib.Failure
 	h.Dev.OnSet = func(ctx context.Context, src target.TargetSource, rec *vlib.SetRecord) {
